@@ -162,6 +162,14 @@ impl GitDiff {
             {
                 continue;
             }
+            // An intent-to-add entry (`git add -N`) only announces a file: nothing is staged
+            // for it yet, `git diff --cached` and `git commit` treat it as absent.
+            if entry
+                .flags
+                .contains(gix::index::entry::Flags::INTENT_TO_ADD)
+            {
+                continue;
+            }
             let path_str = String::from_utf8_lossy(entry.path(&index)).to_string();
             let path = PathBuf::from(&path_str);
 
